@@ -221,7 +221,7 @@ def generateRawDomid (tag : Str) (attrs : Attrs) (bind : Option Bind) : Except P
   let mut suffix : Str := []
   let isCheckable : Bool :=
     match Dict.get? attrs "type".toList with
-    | some t => t.eqStr "checkbox".toList || t.eqStr "radio".toList
+    | some t => t.lowerKw.eqStr "checkbox".toList || t.lowerKw.eqStr "radio".toList
     | none => false
   if tag == "input".toList && isCheckable then
     suffix ← sanitizeSuffix valueOrEmpty
@@ -292,7 +292,7 @@ def transformValue (T : Tables) (tag : Str) (bind : Option Bind) (st : TState) :
     if !proceed then pure st else
     if !forced && !T.autoTag sValue tag then pure st else
     if tag = sInput then
-      let subtype := (Dict.get? attrs sType).getD (.text [])
+      let subtype := ((Dict.get? attrs sType).getD (.text [])).lowerKw
       let isCheckbox := subtype.eqStr "checkbox".toList
       if subtype.eqStr "radio".toList || isCheckbox then
         let (attrs, current) : Attrs × Option Val :=
